@@ -207,6 +207,10 @@ func c04Alphabet(c mcfg) []mevent {
 	}
 	a = append(a, mevent{Op: "attach", Fid: 0, Afid: wire.NOFID, Uid: 8, Uname: "bob", ImplErr: true})
 	a = append(a, mevent{Op: "attach", Fid: 1, Afid: 2, Uid: 7, Uname: "glenda"})
+	if c.Dotu {
+		// a user the pool does not know (the plain dialect cannot express it, see the known finding)
+		a = append(a, mevent{Op: "attach", Fid: 1, Afid: 2, Uid: 99, Uname: "nobody"}, mevent{Op: "attach", Fid: 2, Afid: 0, Uid: 99, Uname: "nobody"})
+	}
 	if c.Auth {
 		a = append(a, mevent{Op: "auth", Afid: 2, Uid: 7, Uname: "glenda"}, mevent{Op: "auth", Afid: 2, Uid: 7, Uname: "glenda", ImplErr: true})
 		a = append(a, mevent{Op: "attach", Fid: 0, Afid: 2, Uid: 7, Uname: "glenda", AuthNo: true})
